@@ -20,7 +20,7 @@
     prune_automorphisms / mcs_mol (such steps are [HExternal]: the value-determined part of their answer is computed by the
     functions of C12_Model.v, the object's state after them is not tracked). *)
 From Coq Require Import List NArith ZArith Bool Arith.
-From SK Require Import lib.Tok lib.LGraph lib.Mono lib.Reach model.C12_Model model.C12_Trace.
+From SK Require Import lib.Tok lib.LGraph lib.Mono lib.Reach model.C12_Model model.C12_Trace model.C12_Check.
 Import ListNotations.
 
 (* ---------- raw attribute dictionaries ---------- *)
@@ -140,7 +140,11 @@ Inductive mop :=
 | MFind (g1 g2 : rgraph) (mcs : bool)
 | MRc (x : rc_input) (sd : side) (mcs component : bool)
 | MReads (ds : list dir)
-| MFindAuto (g1 g2 : rgraph) (mcs : bool) (choices : list mapping).
+| MFindAuto (g1 g2 : rgraph) (mcs : bool) (choices : list mapping)
+| MFindMol (g1 g2 : rgraph) (choice : mapping).
+(** [MFindMol]: find_common_subgraph(G1, G2, mcs_mol=True).  WHICH isomorphism maps a matched component onto its partner is VF2's
+    choice: [choice] (the combined G1 -> G2 mapping, obtained by the harness from networkx alone) is an input, validated by
+    [apply_mol_choice] of C12_Check.v against the greedy component pairing of the model; a rejected parameter is reported. *)
 (** [MFindAuto]: find_common_subgraph on an object constructed with prune_automorphisms=True.  WHICH mapping represents a host
     node set is VF2's enumeration order: [choices] (for every host node set the mapping VF2 enumerates first, obtained by the
     harness from networkx alone) is an input, validated by [apply_choices] of C12_Model.v; a rejected parameter is reported. *)
@@ -188,6 +192,11 @@ Definition m_step (cfg : config) (st : mstate) (o : mop) : mstate * tok :=
           let st' := {| s_maps := kept; s_last := r_last r; s_flag := Some (r_pattern_is_g1 r) |} in
           (st', search_tok st' (r_tried r)
                   [ttrace (fcs_trace (c_defs cfg) (c_prune cfg) (c_wc cfg) (project cfg g1) (project cfg g2) mcs)])
+      | None => (s_init, L [I (-2)])
+      end
+  | MFindMol g1 g2 choice =>
+      match find_mcs_mol_with (c_defs cfg) (c_prune cfg) (c_wc cfg) (project cfg g1) (project cfg g2) choice with
+      | Some r => (state_of r, search_tok (state_of r) (r_tried r) [])
       | None => (s_init, L [I (-2)])
       end
   end.
